@@ -476,9 +476,13 @@ pub fn predict_run(
         for (n, (k, a)) in tests.iter().enumerate() {
             let q = Model::run_entry(prog, printed, plan, mopts(p.ticks), Entry::Func(*k, *a), p.gl.clone());
             let r = q.result.clone();
+            let rethrown = q.rethrown_runtime;
             merge(&mut p, q);
             if let Err(c) = r {
                 p.result = Err(format!("{c} (while running test 't{n}')"));
+                if rethrown {
+                    p.result_alt = Some(c);
+                }
                 return p;
             }
         }
@@ -616,7 +620,7 @@ pub fn exec_op(
     inst.host.take_log();
     inst.host.stdout.take_output();
     clock.record_entries.set(false);
-    clock.reset(CostProfile::constant(1), 1, STEP_CAP);
+    clock.reset_keep_time(CostProfile::constant(1), 1, STEP_CAP, 1_000);
     let script_path = inst.script_path.clone();
     let clear_exports = inst.clear_exports_before_run;
     let koto = &mut inst.host.koto;
@@ -735,7 +739,7 @@ pub fn exec_op(
         if inst.clear_exports_before_run {
             inst.host.koto.exports_mut().clear();
         }
-        clock.reset(CostProfile::constant(1), 1, STEP_CAP);
+        clock.reset_keep_time(CostProfile::constant(1), 1, STEP_CAP, 1_000);
         o.probes = run_probes(&mut inst.host.koto);
     }
     o
@@ -783,7 +787,7 @@ impl HistWorkerState {
             run_tests: false,
         };
         let mut inst = new_instance(&h, &scratch);
-        clock.reset(CostProfile::constant(1), 1, STEP_CAP);
+        clock.reset_keep_time(CostProfile::constant(1), 1, STEP_CAP, 1_000);
         let fresh_probes = run_probes(&mut inst.host.koto);
         Self {
             clock,
